@@ -109,8 +109,8 @@ PROPS = {
                        "/proc/<pid>/mem, then ptrace, over a paged memory): where the pages under the stack's mapping are readable the reader hypothesis is "
                        "discharged (copy_reads_exactly_in), giving E2E_stack_readable with no assumption about the reader, and E2E_stack_recorded "
                        "(such a stack is recorded: the gathering succeeds with a region).",
-        "extra_modules": ["MdwModel.Theorems.EndToEnd", "MdwModel.Theorems.EndToEndMem"],
-        "extra_theorems": ["gather_inv", "E2E_stack_contains_sp", "gather_order_agrees", "gather_crash_unlimited", "E2E_crash_thread", "E2E_other_thread", "E2E_threads", "E2E_crash_thread_full", "copy_readable", "copy_reads_exactly_in", "E2E_stack_readable", "E2E_stack_recorded"],
+        "extra_modules": ["MdwModel.Theorems.EndToEnd", "MdwModel.Theorems.EndToEndMem", "MdwModel.Theorems.MayBeStack"],
+        "extra_theorems": ["gather_inv", "E2E_stack_contains_sp", "gather_order_agrees", "gather_crash_unlimited", "E2E_crash_thread", "E2E_other_thread", "E2E_threads", "E2E_crash_thread_full", "copy_readable", "copy_reads_exactly_in", "E2E_stack_readable", "E2E_stack_recorded", "MayBeStack_source_agrees", "MayBeStack_iff", "MayBeStack_read_only", "MayBeStack_write_only"]
     },
     "C20": {
         "rule": "real stack_has_pointer_to_mapping on stacks of length 0 … 64 with words at / next to both ends of the principal mapping at all "
